@@ -15,6 +15,7 @@
          corollaries: saturating count for all n, append order, last-wins, later-given override wins *)
 From ClapModel Require Import Base.Bytes Base.Machine Base.Utf8 Lex.OsStrExtModel.
 From ClapModel Require Import Parse.Cmd Parse.Build Parse.Valid Parse.Matcher Parse.Errors Parse.Validator Parse.Parser.
+From ClapModel Require ParseProofs.VpKinds.
 From Coq Require Import ZArith.
 From RecordUpdate Require Import RecordSet.
 Import RecordSetNotations.
@@ -668,16 +669,7 @@ Proof.
 Qed.
 
 Lemma vp_parse_kind v s k : vp_parse v s = Some k -> k <> EArgumentConflict.
-Proof.
-  unfold vp_parse. destruct v.
-  - destruct (utf8_valid s); [discriminate|intros H; inversion H; discriminate].
-  - discriminate.
-  - destruct (beq s s_true || beq s s_false); [discriminate|intros H; inversion H; discriminate].
-  - destruct (negb (utf8_valid s)); [intros H; inversion H; discriminate|].
-    destruct (parse_i64 s); [destruct ((0 <=? z) && (z <=? 255))%Z; [discriminate|]|]; intros H; inversion H; discriminate.
-  - destruct (negb (utf8_valid s)); [intros H; inversion H; discriminate|].
-    destruct (parse_i64 s); [destruct ((lo <=? z) && (z <=? hi))%Z; [discriminate|]|]; intros H; inversion H; discriminate.
-Qed.
+Proof. apply (ClapModel.ParseProofs.VpKinds.vp_parse_kind_ind (fun k => k <> EArgumentConflict)); discriminate. Qed.
 
 Lemma push_arg_values_kind c a : forall raw st e st',
   push_arg_values c a raw st = RErr e st' -> e_kind e <> EArgumentConflict.
